@@ -122,6 +122,7 @@ func loadCorpus() map[string]string {
 
 func (c01Driver) Generate(t *tape.Tape, tier string) core.Case {
 	c := &c01Case{}
+	clique := false
 	corpus := loadCorpus()
 	var good map[string]string
 	if len(corpus) > 0 && t.Chance(1, 5) {
@@ -141,7 +142,13 @@ func (c01Driver) Generate(t *tape.Tape, tier string) core.Case {
 		}
 		g := model.Generate(t.Sub("scenario"), p)
 		c.Scenario = g.S
-		good = model.RenderAll(g.S)
+		if it := t.Sub("clique"); it.Chance(1, 300) {
+			// submodules that all include each other: any search that walks the
+			// include graph must stay polynomial
+			c.Scenario = includeClique(it)
+			clique = true
+		}
+		good = model.RenderAll(c.Scenario)
 	}
 	names := sortedNames(good)
 	bt := t.Sub("bad")
@@ -233,6 +240,14 @@ func (c01Driver) Generate(t *tape.Tape, tier string) core.Case {
 		}
 	}
 	c.Ops = append(c.Ops, world.Op{Op: "process"}, world.Op{Op: "query"})
+	if clique {
+		// the whole set, then process and read
+		c.Ops = nil
+		for _, n := range names {
+			c.Ops = append(c.Ops, world.Op{Op: "parse", Name: n})
+		}
+		c.Ops = append(c.Ops, world.Op{Op: "process"}, world.Op{Op: "query", Arg: "a/b"})
+	}
 	c.ReadAfterErrors = t.Sub("readmode").Chance(1, 2)
 	c.Sched = maporder.Random(t.Sub("sched"))
 	ot := t.Sub("options")
@@ -455,4 +470,40 @@ func (c01Driver) Describe(cc core.Case) string {
 	}
 	fmt.Fprintf(&sb, "---- disk: %v path: %v faults: %+v sticky=%v\nops: %s\nsites: %v\n", c.OnDisk, c.Path, c.Faults, c.Sticky, opsString(c.Ops), culpritSites(c.Sched))
 	return sb.String()
+}
+
+// includeClique builds a module with 8-11 submodules that include each other,
+// plus one more submodule that only the module includes and that holds the
+// grouping one of the others uses (or nobody holds it).
+func includeClique(t *tape.Tape) *model.Scenario {
+	n := t.Range(8, 11)
+	m := &model.Mod{Name: "m0", Prefix: "p0", NS: "urn:m0"}
+	s := &model.Scenario{Mods: []*model.Mod{m}}
+	var subs []*model.Mod
+	for i := 0; i < n; i++ {
+		sub := &model.Mod{Name: fmt.Sprintf("s%d", i), BelongsTo: "m0", Prefix: "p0"}
+		subs = append(subs, sub)
+		m.Includes = append(m.Includes, &model.Include{Sub: sub.Name})
+	}
+	for i, sub := range subs {
+		for j, o := range subs {
+			if i != j {
+				sub.Includes = append(sub.Includes, &model.Include{Sub: o.Name})
+			}
+		}
+		s.Mods = append(s.Mods, sub)
+	}
+	holder := &model.Mod{Name: "sx", BelongsTo: "m0", Prefix: "p0"}
+	m.Includes = append(m.Includes, &model.Include{Sub: "sx"})
+	s.Mods = append(s.Mods, holder)
+	gname := "gx"
+	if t.Chance(1, 2) {
+		holder.Groupings = append(holder.Groupings, &model.Grouping{Name: gname, Body: []*model.Node{{Kind: model.KLeaf, Name: "lx", Type: &model.Type{Ref: model.Ref{Name: "string"}}}}})
+	}
+	user := subs[t.Intn(len(subs))]
+	user.Body = append(user.Body, &model.Node{Kind: model.KContainer, Name: "cu", Kids: []*model.Node{{Kind: model.KUses, Uses: &model.Ref{Mod: "sx", Name: gname}}}})
+	if t.Chance(1, 2) {
+		m.Body = append(m.Body, &model.Node{Kind: model.KUses, Uses: &model.Ref{Mod: "sx", Name: gname}})
+	}
+	return s
 }
